@@ -86,7 +86,7 @@ class NoteContainer(object):
         """
         if hasattr(notes, "notes"):
             for x in notes.notes:
-                self.add_note(x)
+                self.add_note(Note(x))
             return self.notes
         elif hasattr(notes, "name"):
             self.add_note(notes)
